@@ -619,6 +619,32 @@ def moore_cases(draw, tier):
     e = draw(st.sampled_from([0, 0, 0, -6, -2, 2, 6]))
     lam = lam * 10.0 ** e
     H = draw(gen.hermitian_with_spectrum(n, lam))
+    if n >= 2 and draw(st.integers(0, 2)) == 0:
+        # structured Hermitian matrices written down entry by entry (exact zeros in the pattern: arrow, banded, block
+        # diagonal, isolated zero entries, sparse); the oracle spectrum comes from the harness's own eigvalsh
+        H = gen.make_hermitian(draw(gen.qarray(n, n, draw(st.sampled_from(["int", "units", "sparse", "generic"]))))[0])
+        style = draw(st.sampled_from(["arrow", "banded", "mask", "zero_10", "block"]))
+        keep = np.ones((n, n), dtype=bool)
+        if style == "arrow":
+            piv = draw(st.integers(0, n - 1))
+            keep[:] = False
+            keep[piv, :] = keep[:, piv] = True
+        elif style == "banded":
+            bw = draw(st.integers(1, 2))
+            keep = np.abs(np.subtract.outer(np.arange(n), np.arange(n))) <= bw
+        elif style == "mask":
+            msk = np.array(draw(st.lists(st.booleans(), min_size=n * n, max_size=n * n))).reshape(n, n)
+            keep = np.triu(msk, 1)
+            keep = keep | keep.T
+        elif style == "zero_10":
+            keep[1, 0] = keep[0, 1] = False
+        else:
+            c = draw(st.integers(1, n - 1))
+            keep[c:, :c] = keep[:c, c:] = False
+        np.fill_diagonal(keep, True)
+        H = H * keep[:, :, None]
+        H = H * 10.0 ** e
+        lam = ref.eigvalsh(H)
     kind = draw(st.sampled_from(["hermitian"] * 4 + ["offdiag_perturbed", "imag_diagonal"]))
     i = draw(st.integers(0, n - 1))
     j = draw(st.integers(0, n - 1))
